@@ -1008,7 +1008,7 @@ theorem pend_step {s : Sys} (h : Pend s) (e : Ev) (hf : Frag2 s e) : Pend (step 
       have : (step s (.ccAdd name spec)).1 = s := by simp [step, hg]
       rw [this]; exact h
     | none =>
-      have hstep : (step s (.ccAdd name spec)).1 = { s with api := { s.api with ccs := s.api.ccs ++ [⟨name, spec, [], false, 1, 1⟩] } } := by
+      have hstep : (step s (.ccAdd name spec)).1 = { s with api := { s.api with ccs := s.api.ccs ++ [⟨name, spec, [], false, 1, freshRv s⟩] } } := by
         simp [step, hg]
       rw [hstep]
       have hv0 : getCC s.ccView name = none := hf
